@@ -3,10 +3,12 @@ import copy, json
 import core, findings
 from core import World, hx, Line
 from gen import Gen, mode_line, cfg_line
+import jsonlens
 from suites import run_suite, exp_silent, exp_one_error_no_write
 import docs
 
-LEAN_MODULES = ['GoSnaps.Props.C16', 'GoSnaps.Props.Tie.Flows', 'GoSnaps.Props.Tie.Matchers']
+LEAN_MODULES = ['GoSnaps.Props.C16', 'GoSnaps.Props.Tie.Flows', 'GoSnaps.Props.Tie.Matchers',
+                'GoSnaps.DriverX', 'GoSnaps.Lemmas.JsonPath', 'GoSnaps.Props.C16Json']
 
 LEAVES = ['big', 'a', 's', 'o.x', 'o.y.0', 'l.0.k', 'n', 'deep.er.est', 'filter[status]', 'filter.status', 'ids[0]', 'ids.0']
 BASE = {'big': 1585369512231022593, 'a': 1, 's': 'str', 'o': {'x': True, 'y': [1, 2]}, 'l': [{'k': 'v'}], 'n': 'nn', 'deep': {'er': {'est': 5}},
@@ -167,6 +169,7 @@ def make_world(g, tag):
 
 
 def run(ctx):
+    jsonlens.run_json_lens(ctx)
     g = Gen(ctx.seed * 1000003 + 16)
     docs.STYLE = g.r
     n = 400 if ctx.tier == 'quick' else 10000
